@@ -8,11 +8,13 @@ struct Plan {
     int split{2};
     int base_blocks{110};
     std::string what;   // one line for the evidence
+    double budget_frac{0}; // >0: use at most this fraction of the tier deadline
 };
 // configure(sim) fills kinds/parents/event switches and returns the plan
-inline int Main(int argc, char** argv, const char* id, ck::NodeOpts nopts, const std::function<Plan(Sim&)>& configure)
+// Explore() = everything between vx::init and vx::finish (so a check can combine it with other parts).
+// Returns -1 normally, or an exit code when it handled --replay itself.
+inline int Explore(const char* id, ck::NodeOpts nopts, const std::function<Plan(Sim&)>& configure)
 {
-    vx::init(argc, argv, id, "model_checking", 170, 1500);
     vx::scratch_dir(); // TMPDIR -> tmpfs
     auto& E = vx::ev();
     ck::Node node(nopts);
@@ -41,6 +43,7 @@ inline int Main(int argc, char** argv, const char* id, ck::NodeOpts nopts, const
         printf("replay done: tip height %d, reports=%d\n", node.height(), (int)sim.fs.sh->violations.load());
         return sim.fs.sh->violations.load() ? 1 : 0;
     }
+    if (plan.budget_frac > 0) sim.fs.budget_s = vx::elapsed() + plan.budget_frac * vx::ctx().deadline_s;
     sim.Run(id, plan.depth, plan.split);
     std::string kinds, parents;
     for (auto& k : sim.kinds) kinds += k + " ";
@@ -52,7 +55,13 @@ inline int Main(int argc, char** argv, const char* id, ck::NodeOpts nopts, const
     E.set("depth", (uint64_t)plan.depth);
     E.sample("event alphabet per state: B:{" + parents + "}:{" + kinds + "}" + (sim.ev_headers ? " H:..." : "") + (sim.ev_flush ? " F" : "") + (sim.ev_invalidate ? " I:t0 I:t1" : "") + (sim.ev_reconsider ? " R" : "") + (sim.ev_precious ? " P:s" : ""));
     E.sample("example history: B:t0:spend1 | B:t1:chain2 | F | I:t0 | R");
-    // sanity gate: the exploration must have met rejections if the menu has invalid kinds, and reorgs if it has side parents
+    return -1;
+}
+inline int Main(int argc, char** argv, const char* id, ck::NodeOpts nopts, const std::function<Plan(Sim&)>& configure)
+{
+    vx::init(argc, argv, id, "model_checking", 170, 1500);
+    int rc = Explore(id, nopts, configure);
+    if (rc >= 0) return rc;
     return vx::finish();
 }
 } // namespace cs
